@@ -327,4 +327,40 @@ example : consulted "r.m".toList [] (.impFrom (some "r.P".toList) ["n".toList] 0
     [".r.P.n".toList, "r.P.n".toList, ".r.P".toList] ∧
     consulted "r.a.m".toList "r".toList (.impFrom (some "P".toList) ["n".toList] 2) = ["r.P.n".toList] := by decide
 
+
+/-! ### The scan "without that pattern" exists (repaired defect F-C08a, fix c0bb7ac)
+
+C08 compares every filtered scan with "the scan without that pattern"; for a single pattern that is the call with
+`exclusions=()`. Before the repair that call raised a `TypeError` (`EntryArgs.filePatternsBeforeRepair` is `none`,
+`FileFilter(Config(None))`). -/
+
+/-- the entry point never runs into the `TypeError` branch: whatever the options, the file patterns are defined -/
+theorem no_type_error (mt : Str → Str → Bool) (fs : Str → List Entry) (rootPath modulePath : Str) (a : EntryArgs) :
+    getEvaluableArchitecture mt fs rootPath modulePath a ≠ .error .typeError := by
+  unfold getEvaluableArchitecture
+  split
+  · simp
+  · split
+    · simp
+    · have h : a.scanOptions ≠ none := by
+        simp only [EntryArgs.scanOptions, EntryArgs.filePatterns]
+        split <;> simp
+      split
+      · contradiction
+      · split <;> simp
+
+/-- `exclusions=()` and no `regex_exclusions`: the scan with the empty pattern list, i.e. nothing is excluded -/
+theorem no_patterns_scan (mt : Str → Str → Bool) (a : EntryArgs)
+    (hex : a.exclusions = []) (hrex : a.regexExclusions = none) :
+    (a.scanOptions.map (·.exclusions)) = some (.regexes []) ∧
+    ∀ s, isExcluded mt (.regexes []) s = false := by
+  constructor
+  · simp [EntryArgs.scanOptions, EntryArgs.filePatterns, hex, hrex]
+  · intro s; simp [isExcluded]
+
+/-- the defect, on the code before the repair: the pattern value handed to the file filter was `None` -/
+theorem no_patterns_before_repair :
+    ({ exclusions := [] } : EntryArgs).filePatternsBeforeRepair = none ∧
+    ({ exclusions := [] } : EntryArgs).filePatterns = some (.regexes []) := ⟨rfl, rfl⟩
+
 end Pta.C08
